@@ -165,7 +165,8 @@ struct Tree {
   Model root;
   std::map<std::string, std::unique_ptr<Model>> nodes;
   void add(const std::string &path, Parameter &p) {
-    std::vector<std::string> parts = vh::split(path, '.');
+    // hierarchy separator: '/' when the path has one (then the names may contain dots), else '.'
+    std::vector<std::string> parts = vh::split(path, path.find('/') != std::string::npos ? '/' : '.');
     if (parts.empty()) throw BadOp();
     Model *cur = &root;
     std::string prefix;
